@@ -60,6 +60,17 @@ NEWCHAR = FnSpec(post=[
     dict(name='data-byte-stored', when=['state == 1', 'line.len < line.cap - 1', 'c != ctx.GSTUFF_START',
                                         'c != ctx.GSTUFF_STOP', 'c != ctx.GSTUFF_STUB'],
          then=['ret == 0', 'state_post == 1', 'ghost_put == c', 'line.len_post == line.len + 1']),
+] + [
+    # Resynchronisation when the markers differ: from EVERY state (idle after a frame or an error, idle, inside a frame,
+    # after an escape byte) a start marker leaves the receiver in one and the same configuration - in-frame, empty line,
+    # CRC register re-armed.  What is received after a start marker therefore does not depend on anything received
+    # before it: a well-formed frame following any garbage is processed exactly as by a fresh receiver, i.e. it is
+    # delivered intact, from the first one on.
+    dict(name='resync:start-marker-from-state-%d-gives-the-fresh-in-frame-configuration' % s_,
+         when=['state == %d' % s_, 'c == ctx.GSTUFF_START', 'ctx.GSTUFF_START != ctx.GSTUFF_STOP'] + NOT_CODE,
+         then=['state_post == 1', 'line.len_post == 0', 'line.cursor_post == 0', 'crc_post == 255',
+               'line.cap_post == line.cap'])
+    for s_ in (0, 1, 2, 4)
 ])
 
 # legacy receiver: constants instead of a context; START doubles as STOP
@@ -145,7 +156,10 @@ def run(rep, repo, tier):
         'a refused byte yields the OVERFLOW status, NEWPACKAGE is returned only with zero CRC residue and strips the '
         'CRC byte, a start marker inside a frame restarts (markers differ), each escape code decodes to its marker, an '
         'invalid escape is an error - for every automaton state, input byte, context alphabet (symbolic marker values) '
-        'and buffer capacity. Resynchronisation over whole streams is not decided (see DESIGN.md).')
+        'and buffer capacity. Resynchronisation for differing markers is decided through the clause "a start marker from any '
+        'state (0, 1, 2, 4) yields one and the same fresh in-frame configuration" (so a well-formed frame after any garbage is '
+        'processed as by a fresh receiver); the case START == STOP ("from the second frame at the latest") and the legacy '
+        'receiver, whose marker doubles as start and stop, are not decided over whole streams.')
     rep.assumptions += ['receiver state is one of the values the automaton itself stores (0,1,2,4)',
                         'marker alphabet values are arbitrary (symbolic) for the configurable receiver']
     src = repo + '/igris/protocols/gstuff.cpp'
